@@ -66,6 +66,10 @@ Print Assumptions c05_cell_text.
 Theorem c05_count_text : forall n t, fmt_int F_d n = Some t -> read_number t = Some (mkp (n <? 0)%Z (Z.abs n) 0 0).
 Proof. exact (fmt_int_reads F_d). Qed.
 
+(* a printed value contains no blank or line break: a line of a block splits at blanks into exactly its (at most four) values *)
+Theorem c05_cell_no_blank : forall neg m e, (0 <= m)%Z -> Forall (fun c => cell_char c = true) (fixed 6 neg m e).
+Proof. exact (fixed_chars 6). Qed.
+
 Example c05_example :
   let els := [{| el_sp := 1; el_Z := 13; el_mass := 27; el_a0 := 0; el_lat := 5 |}; {| el_sp := 0; el_Z := 29; el_mass := 63; el_a0 := 0; el_lat := 5 |}] in
   count_blocks (tabeam_file true els [] 3 (1 # 2) 5 (1 # 10)) = 9%nat /\ Qeq_bool (tabeam_count_fs 2) (9 # 1) = true
